@@ -1,0 +1,10 @@
+//go:build !verif
+
+package redisemu
+
+// verifPoint marks a schedule/observation point used by external verification
+// tooling. Without the "verif" build tag it is an empty, inlinable function.
+func verifPoint(point string, id int64, detail string) {}
+
+// verifPointN is verifPoint with two integer details instead of a string.
+func verifPointN(point string, id int64, n1, n2 int) {}
